@@ -77,6 +77,14 @@ CHECKS = {
              'converters and the attribute/node properties built on them are called for each case and TLC judges value, lexical form, round trip and rejection.',
         note='Trusted: IEEE-754 arithmetic is executed, not modelled (decided on the enumerated windows and samples); canary records guard the judge.',
         design_ref='6/C18'),
+    'C16': dict(
+        technique='TLA+ spec Location.tla (reference Scope/Parse/Inside over code-point sequences + foreign scope classes) enumerated by TLC; every case executed on the real location/scopes/discovery code; results judged by TLC (LocationTrace.tla)',
+        text='TLC enumerates 64 presence patterns x value classes (reserved URL characters, %, blanks, non-ASCII, non-BMP) and a product of foreign scope '
+             'classes (schemes, authorities, 0-5 path segments, malformed queries); the laws Parse(Scope(l))=l, Inside(l, widen), ~Inside(l, change) are '
+             'invariants of the reference. Each case runs through SdcLocation, update_from_sdc_location + mk_scopes and the socket-less discovery search; TLC judges round trip, '
+             'inside/outside verdicts and totality of filtering.',
+        note='Trusted: value classes are representatives; \'\' and None denote the same absent element.',
+        design_ref='6/C16'),
 }
 
 NOT_YET = 'check not built yet in this round (see DESIGN.md section 10 build order); no claim made'
